@@ -45,6 +45,7 @@ func (m heapManager) run() {
 	var sync bool
 
 	for req := range m {
+		verifPoint("hm.req", int(req.cmd), nil)
 		switch req.cmd {
 		case h_push:
 			data := req.data.(pushData)
@@ -130,6 +131,7 @@ func (m heapManager) push(b *Bar, sync bool) {
 	case m <- req:
 	default:
 		go func() {
+			verifPoint("hm.push.detached", 0, b)
 			m <- req
 		}()
 	}
@@ -171,6 +173,7 @@ func maxWidthDistributor(column []chan int, drop <-chan struct{}) {
 			return
 		}
 	}
+	verifPoint("wd.collected", len(column), nil)
 	for _, ch := range column {
 		ch <- maxWidth
 	}
